@@ -8,6 +8,7 @@ import (
 
 	"go.dedis.ch/kyber/v3"
 	"go.dedis.ch/onet/v3"
+	"go.dedis.ch/onet/v3/network"
 	"go.dedis.ch/onet/v3/log"
 )
 
@@ -191,6 +192,23 @@ func (s *c14Service) key(m *C14Key) (*C14Reply, error) {
 	}
 	return c14Transform("Key", m.A, str, nil)
 }
+
+// C14Ack is acknowledged without a message: its handler has an interface return type and hands back
+// (nil, nil) — nothing to encode, the reply is empty (seed C14r7-B handed the request's own bytes
+// back). A bad S fails or panics like everywhere.
+type C14Ack struct {
+	A int64
+	S string
+	B []byte
+}
+
+func (s *c14Service) ack(m *C14Ack) (network.Message, error) {
+	atomic.AddInt64(&c14Calls, 1)
+	if _, err := c14Transform("Ack", m.A, m.S, m.B); err != nil {
+		return nil, err
+	}
+	return nil, nil
+}
 func (s *c14Service) bothWs(m *C14Both) (*C14Reply, error) {
 	atomic.AddInt64(&c14Calls, 1)
 	return c14Transform("BothWs", m.A, m.S, m.B)
@@ -223,7 +241,7 @@ func (s *c14Service) getEmpty(m *C14Empty) (*C14Reply, error) {
 func newC14Service(c *onet.Context) (onet.Service, error) {
 	s := &c14Service{ServiceProcessor: onet.NewServiceProcessor(c)}
 	// (the order is mirrored by `concreteRegs` in lean/OnetVerif/Model/C14.lean)
-	if err := s.RegisterHandlers(s.echo, s.swap, s.key, s.keep, s.who, s.bothWs); err != nil {
+	if err := s.RegisterHandlers(s.echo, s.swap, s.key, s.keep, s.who, s.bothWs, s.ack); err != nil {
 		return nil, err
 	}
 	for _, r := range []struct {
